@@ -68,6 +68,14 @@ def _loc(location, filename):
     return {'loc': location, 'file': filename}
 
 
+def _name_loc(name):
+    # builtins, compiled modules and other runtime objects have no source position
+    try:
+        return _loc(name.declared_at, name.filename)
+    except AttributeError:
+        return None
+
+
 def location(project, source, position, filename=None, debug=False):
     source = Source(source, filename, position)
 
@@ -107,9 +115,12 @@ def location(project, source, position, filename=None, debug=False):
     locs = []
     for r in result:
         if isinstance(r, list):
-            locs.append([_loc(n.declared_at, n.filename) for n in r])
+            alts = [_name_loc(n) for n in r]
+            locs.append([l for l in alts if l])
         else:
-            locs.append(_loc(r.declared_at, r.filename))
+            loc = _name_loc(r)
+            if loc:
+                locs.append(loc)
 
     return locs
 
